@@ -38,7 +38,7 @@ func varNames(items []itemT) (top, all []string) {
 	for i := range items {
 		it := &items[i]
 		switch it.K {
-		case "var":
+		case "var", "const":
 			if !seenT[it.X] {
 				seenT[it.X] = true
 				top = append(top, it.X)
@@ -408,9 +408,10 @@ func main() {
 		// validation of the model's reading of the program against the toolchain
 		specOK := true
 		if c.Kind == "prog" {
-			specOK = unmodelled || sameAsRef(obsT{Halt: mWhole.Halt, Out: mWhole.Out}, rf)
+			mSpec := parseObs(ans["g"], "-")
+			specOK = unmodelled || sameAsRef(obsT{Halt: mSpec.Halt, Out: mSpec.Out}, rf)
 			if rf.Reject != "" {
-				specOK = compileKind(mWhole.Halt)
+				specOK = compileKind(mSpec.Halt)
 			}
 		}
 
@@ -462,7 +463,7 @@ func main() {
 			}
 		}
 		if !specOK {
-			run.Disagree(common.Disagreement{Kind: "spec-vs-ref", Input: c, Spec: mWhole.key(nil), Ref: rf.key() + " " + common.FirstLine(rf.Reject)})
+			run.Disagree(common.Disagreement{Kind: "spec-vs-ref", Input: c, Spec: ans["g"], Ref: rf.key() + " " + common.FirstLine(rf.Reject)})
 		}
 		if known {
 			f := knownFs[i]
